@@ -41,6 +41,13 @@ MUTANTS = [
       (CONV, "    rgb = hsl_to_rgb((h, s, l))\n", "    rgb = hsl_to_rgb((h, s, l * a))\n")),
 ]
 
+MUTANTS += [
+    M("sweep: HSLA tuple branch ignores a supplied background (test polarity flipped)",
+      (PAR, "                bg_rgb = None\n                if background is not None:\n                    if isinstance(background, (tuple, list)) and len(background) == 3:\n                        bg_rgb = tuple(background)\n                    else:\n                        bg_rgb = parse_color_to_rgb(background)\n                return hsla_to_rgb(color, bg_rgb)",
+       "                bg_rgb = None\n                if background is None:\n                    if isinstance(background, (tuple, list)) and len(background) == 3:\n                        bg_rgb = tuple(background)\n                    else:\n                        bg_rgb = parse_color_to_rgb(background)\n                return hsla_to_rgb(color, bg_rgb)")),
+    M("sweep: hsla default background is not white", (CONV, "        bg_rgb = (255, 255, 255)  # Default white background", "        bg_rgb = (256, 255, 255)  # Default white background")),
+]
+
 BENIGN = [
     M("round in the HSLA blend", (CONV, "    final_r = int(a * r + (1 - a) * bg_r)\n    final_g = int(a * g + (1 - a) * bg_g)\n    final_b = int(a * b + (1 - a) * bg_b)", "    final_r = int(round(a * r + (1 - a) * bg_r))\n    final_g = int(round(a * g + (1 - a) * bg_g))\n    final_b = int(round(a * b + (1 - a) * bg_b))")),
     M("blend operands commuted", (CONV, "    r_out = int(round(r * a + r_bg * (1 - a)))", "    r_out = int(round((1 - a) * r_bg + a * r))")),
